@@ -165,7 +165,7 @@ class SvsInst:
 
     def aggregate(self, rsv_dict: dict[bytes, int]):
         for rsv_id, rsv_seq in rsv_dict.items():
-            asv_seq = self.local_sv.get(rsv_id, 0)
+            asv_seq = self.agg_sv.get(rsv_id, 0)
             self.agg_sv[rsv_id] = max(asv_seq, rsv_seq)
 
     async def on_timer(self):
